@@ -228,7 +228,7 @@ func judge(n *node, out *outcome) *verdict {
 		case dl.commitBad && top >= dl.Height-1 && !hadGoodCommit && dl.StoreHeight < dl.Height-1:
 			msg := fmt.Sprintf("peer %d served block %d with a LastCommit (%s) that is not a genuine commit of block %d, before anybody served a genuine one; the node stored %d and never stopped the peer",
 				dl.Peer, dl.Height, dl.Kind, dl.Height-1, dl.Height-1)
-			if strings.Contains(dl.Kind, "padded") {
+			if strings.Contains(dl.Kind, "padded") || strings.Contains(dl.Kind, "commit-nil-") || strings.Contains(dl.Kind, "swapped") {
 				known("%s", msg)
 			} else {
 				bad("%s", msg)
@@ -495,7 +495,8 @@ func TestSyncV0(t *testing.T) {
 func regressScenario(kind string) *scenario {
 	sc := &scenario{Reactor: "v0", Initial: 1, Keys: []int{0, 1, 2, 3}, Powers: []int64{10, 10, 10, 10}}
 	for i := 0; i < 6; i++ {
-		sc.Heights = append(sc.Heights, heightSpec{Txs: []string{fmt.Sprintf("k%d=v", i)}})
+		// the fourth slot of every canonical commit is a genuine precommit for nil
+		sc.Heights = append(sc.Heights, heightSpec{Txs: []string{fmt.Sprintf("k%d=v", i)}, FlagPref: []int{0, 0, 0, 2}})
 	}
 	honest := peerSpec{Role: "partial", Status: "stale", StatusArg: 1}
 	liar := peerSpec{Role: "liar", Status: "true", Beyond: respSpec{Kind: "fabricate"}}
@@ -512,7 +513,8 @@ func regressScenario(kind string) *scenario {
 // (garbage signature behind the +2/3 prefix / garbage "nil" vote / foreign validator address); block sync stores it
 // as the seen commit and the hand-over to consensus panics in reconstructLastCommit.
 func TestRegressPaddedSeenCommit(t *testing.T) {
-	for _, kind := range []string{"commit-padded-sig", "commit-padded-nil", "commit-padded-addr"} {
+	for _, kind := range []string{"commit-padded-sig", "commit-padded-nil", "commit-padded-addr",
+		"commit-nil-addr-member", "commit-nil-addr-unknown", "commit-nil-wrong-index", "commit-forblock-swapped"} {
 		kind := kind
 		t.Run(kind, func(t *testing.T) {
 			syncOnce(t, "TestRegressPaddedSeenCommit", regressScenario(kind), true)
